@@ -84,6 +84,13 @@ func main() {
 				map[string]interface{}{"family": family, "case_number": i, "seed": cfg.Seed}, "")
 		}
 	}
+	seenMD := map[string]bool{}
+	for _, d := range matcherDisagreements {
+		if !seenMD[d] {
+			seenMD[d] = true
+			s.Fail(s.NextID(), "like/ilike matcher: "+d, map[string]interface{}{"family": "matcher reference", "what": d, "props": []string{"C02", "C18"}}, "")
+		}
+	}
 	s.Finish()
 }
 
